@@ -887,8 +887,10 @@ def antifreeze(fn, l):
                     return False, 'the counter is decremented only under `%s`, which a zero-delay event storm need not satisfy' % show(g)[:60]
                 for f in fs:
                     cc = const_of(f[3])
-                    if cc is not None and cc < 0:
-                        return False, 'the counter is decremented only when wait %s %s: zero-delay rows (wait == 0) are not counted' % (f[1], cc)
+                    if cc is None and isinstance(strip(f[3]), dict) and 'fc' in strip(f[3]):
+                        cc = strip(f[3])['fc']          # floating literal
+                    if cc is not None and (cc < 0 or (f[1] == '<' and cc <= 0)):
+                        return False, 'the counter is decremented only when wait %s %s: zero-delay rows that leave the wait at exactly 0 are not counted' % (f[1], cc)
     return True, 'condition carries %s > 0 (initially %d); decremented whenever the wait did not grow; never reset' % (short(counter['n']), init)
 
 
